@@ -506,7 +506,7 @@ Definition uv_loop_init (first_loop : bool) (l : ledger) (w : world) : out :=
 (* ---- the timeout loop of uv__io_poll, src/unix/linux.c:1350-1620 ---------------------------
    Only the arithmetic that decides how long epoll_pwait may block: base (1389), real_timeout,
    the UV_METRICS_IDLE_TIME variant (reset_timeout / user_timeout: a first non-blocking call),
-   the nfds == 0 / -1 handling (1473-1489) and the update_timeout block (1601-1614).
+   the nfds == 0 / -1 handling (1473-1489) and the update_timeout block (1601-1619).
    The clock is virtual: [p_now] is loop->time - base, advanced by what an answer reports.
    Answers of epoll_pwait: interrupted after [e] ms, timed out (waited the whole timeout), or
    events after [e] ms (dispatch ends the function: nevents != 0, fewer than 1024 events).    *)
@@ -514,16 +514,17 @@ Inductive pans := PIntr (e : Z) | PTimeout | PEvents (e : Z).
 Inductive pend := PeTimeout | PeEvents | PeBreak | PeStuck.
 
 Record pst := mkP {
-  p_now : Z;          (* loop->time - base after the last uv__update_time *)
+  p_now : Z;          (* loop->time - (loop->time at entry) after the last uv__update_time *)
   p_real : Z;         (* real_timeout *)
   p_timeout : Z;      (* timeout, the value passed to the next epoll_pwait *)
   p_reset : bool;     (* reset_timeout *)
   p_user : Z;         (* user_timeout *)
-  p_ok : bool         (* the answers so far reported 0 <= elapsed <= timeout of their call *)
+  p_ok : bool;        (* the answers so far reported 0 <= elapsed <= timeout of their call *)
+  p_base : Z          (* base - (loop->time at entry); advanced by update_timeout since /repo c841fbc *)
 }.
 Record pres := mkR {
-  r_calls : list (Z * Z);   (* (timeout passed, loop->time - base at the call), newest first *)
-  r_blocked : Z;            (* loop->time - base when the function returns *)
+  r_calls : list (Z * Z);   (* (timeout passed, time since entry at the call), newest first *)
+  r_blocked : Z;            (* time since entry when the function returns *)
   r_end : pend;
   r_ok : bool
 }.
@@ -532,17 +533,17 @@ Definition elapsed_ok (t e : Z) : bool := (0 <=? e) && ((t <? 0) || (e <=? t)).
 
 (* nfds == 0 || nfds == -1 with reset_timeout != 0: timeout = user_timeout; reset_timeout = 0 *)
 Definition after_reset (s : pst) (now : Z) (ok : bool) : pst :=
-  if p_reset s then mkP now (p_real s) (p_user s) false (p_user s) ok
-  else mkP now (p_real s) (p_timeout s) false (p_user s) ok.
+  if p_reset s then mkP now (p_real s) (p_user s) false (p_user s) ok (p_base s)
+  else mkP now (p_real s) (p_timeout s) false (p_user s) ok (p_base s).
 
 (* update_timeout: None = leave the loop *)
 Definition update_timeout (s : pst) : option pst :=
   if p_timeout s =? 0 then None
   else if p_timeout s =? -1 then Some s
   else
-    let real := p_real s - p_now s in            (* real_timeout -= (loop->time - base) *)
+    let real := p_real s - (p_now s - p_base s) in   (* real_timeout -= (loop->time - base); base = loop->time *)
     if real <=? 0 then None
-    else Some (mkP (p_now s) real real (p_reset s) (p_user s) (p_ok s)).
+    else Some (mkP (p_now s) real real (p_reset s) (p_user s) (p_ok s) (p_now s)).
 
 (* the script is exhausted: every further call times out *)
 Definition io_poll_tail (s : pst) (log : list (Z * Z)) : pres :=
@@ -586,8 +587,8 @@ Fixpoint io_poll_loop (o : list pans) (s : pst) (log : list (Z * Z)) : pres :=
   end.
 
 Definition io_poll (metrics : bool) (timeout : Z) (o : list pans) : pres :=
-  io_poll_loop o (if metrics then mkP 0 timeout 0 true timeout true
-                  else mkP 0 timeout timeout false 0 true) [].
+  io_poll_loop o (if metrics then mkP 0 timeout 0 true timeout true 0
+                  else mkP 0 timeout timeout false 0 true 0) [].
 
 (* ---- helpers for statements --------------------------------------------------- *)
 Fixpoint strip (o : list ans) : list ans :=
